@@ -30,6 +30,9 @@ func init() {
 		{profTry, append(checksTry(), builderChecksTry()...), &pt, builderHitsTry()},
 		{profEither, checksEither(), &pe, nil},
 		{profStatet, checksStatet(), &ps, nil},
+		{profSeq, checksSeq(), nil, nil},
+		{profList, checksList(), nil, nil},
+		{profIterator, checksIterator(), nil, nil},
 	}
 }
 
